@@ -34,6 +34,11 @@ theorem C10_gen_borrow : BorrowOK Gen.Bsp.tables = true := by decide +kernel
 /-- a reader that stores to a raw lump (`texinfo` empties TEXDATA itself) only does so to a lump its view empties anyway. -/
 theorem C10_gen_reader_stores :
     Gen.Bsp.readerStores.all (fun p => (Gen.Bsp.tables.view p.1).clears.contains p.2) = true := by decide +kernel
+/-- lump header fields (version, flags) are assigned only by a writer, and only on its own main lump
+(`_lmp_write_props` stores the static-prop format version it writes). -/
+theorem C10_gen_header_stores :
+    Gen.Bsp.headerStores.all (fun p => p.2.2.1 == 1 && (Gen.Bsp.tables.view p.1).main == p.2.1) = true := by
+  decide +kernel
 /-- the body order of the file: every lump once, PAKFILE last. -/
 theorem C10_gen_write_order :
     Gen.Bsp.tables.writeOrder.length = 64 ∧ Gen.Bsp.tables.writeOrder.Nodup ∧
